@@ -156,8 +156,11 @@ def _work(chunk):
             # What this worker is busy with: if it never comes back (a loop
             # inside one C call is invisible to the step clock) the driver
             # knows which item to blame.
-            with open(status, 'w') as fout:
-                json.dump({'item': item, 'since': time.time()}, fout)
+            try:
+                with open(status, 'w') as fout:
+                    json.dump({'item': item, 'since': time.time()}, fout)
+            except OSError:
+                status = None   # (somebody cleaned /tmp: no blame records)
 
         try:
             result = engine.run_item(item)
@@ -521,7 +524,12 @@ def main(engine, argv=None):
             # A worker that has been on one item for too long: remember the
             # item, the run is cut short and the item is examined alone in
             # a subprocess afterwards.
-            for name in os.listdir(status_dir):
+            try:
+                names = os.listdir(status_dir)
+            except OSError:
+                names = []
+
+            for name in names:
                 try:
                     with open(os.path.join(status_dir, name)) as fin:
                         entry = json.load(fin)
